@@ -81,6 +81,13 @@ fn sampler(_wid: u32, _site: u16, _step: u64) {
                 format!("worker {} is pinned at epoch {} (guard serial {}) but the global epoch is {}", r.wid, ann, r.serial, g),
             );
         }
+        if g < r.announced || g - r.announced > 1 {
+            mon::observer_violation(
+                "C14",
+                "C14|epoch-advanced-twice-within-critical-section",
+                format!("worker {}: guard serial {} has been live since epoch {} (the participant never unpinned) but the global epoch is {}", r.wid, r.serial, r.announced, g),
+            );
+        }
         if ann != r.announced {
             mon::observer_violation(
                 "C16",
@@ -695,6 +702,59 @@ fn run_one(cfg: &EbrCfg, eseed: u64, idx: u64, st: &mut EbrStats) {
     let pending = |a: usize, b: usize| (a..b).filter(|i| EXEC[*i % MAXC].load(SeqCst) == 0).count();
     let variant_rounds = rng.chance(2, 3);
     let mut rounds = 0u64;
+    let mut last_c = last_c;
+    if variant_rounds && rng.chance(1, 4) {
+        // A burst of single-closure bags sealed in one epoch (more than one collection pops), three further
+        // advances, then a participant that stays inside a critical section: the global epoch can move at most
+        // once more, but everything deferred so far has expired and must still be executed by the survivor.
+        let hb = collector.register();
+        let b = *rng.pick(&[20usize, 60, 150, 300]);
+        {
+            let g = hb.pin();
+            for _ in 0..b {
+                do_defer(&g, &mut rng);
+                g.flush();
+            }
+        }
+        let upto = NEXT_C.load(SeqCst);
+        let e_b = V::collector_epoch(&collector);
+        let mut aged = false;
+        for _ in 0..20 {
+            let g = hb.pin();
+            g.flush();
+            drop(g);
+            if V::collector_epoch(&collector) >= e_b + 3 {
+                aged = true;
+                break;
+            }
+        }
+        if aged {
+            st.variants.inc("survivor-rounds-with-parked-participant");
+            let hp = collector.register();
+            let gp = hp.pin();
+            let bound = 64 + (upto - first_c) as u64 / 4;
+            let mut r = 0u64;
+            while pending(first_c, upto) > 0 && r < bound {
+                let g = hb.pin();
+                g.flush();
+                drop(g);
+                r += 1;
+            }
+            let p = pending(first_c, upto);
+            if p > 0 {
+                mon::violation(
+                    "C15",
+                    "C15|closure-not-run-within-bound|parked-participant",
+                    format!("{} of {} closures deferred at least three epochs before a participant parked inside a critical section were not executed after {} pin/flush/unpin rounds by a surviving participant", p, upto - first_c, bound),
+                );
+            }
+            rounds = rounds.max(r);
+            drop(gp);
+            drop(hp);
+        }
+        drop(hb);
+        last_c = NEXT_C.load(SeqCst);
+    }
     if variant_rounds {
         st.variants.inc("survivor-rounds");
         let h = collector.register();
